@@ -43,7 +43,7 @@ def generate(streams, tier):
             op["c"] = rw.choice([0, 2, 0.5, 3])
             op["fn"] = rw.choice(["mul", "add", "rmul", "radd"])
         ops.append(op)
-    return {"universe": universe, "backend": streams.s("config").choice(["numpy", "numpy", "torch"]), "init": init, "ops": ops}
+    return {"universe": universe, "backend": streams.s("config").choice(["numpy", "numpy", "numpy", "torch", "torch", "numpy:float32", "torch:float32"]), "init": init, "ops": ops}
 
 
 def _rand_factor(r, u, scope=None):
@@ -122,7 +122,7 @@ def make(u, names, f, axis_perm=None):
     return DiscreteFactor([names.L(v) for v in sc], [u["card"][v] for v in sc], list(f["values"]), **kw)
 
 
-def check_member(ctx, names, card, phi, ref, what, slot, strict_nonfinite=False):
+def check_member(ctx, names, card, phi, ref, what, slot, strict_nonfinite=False, single=False):
     """pgmpy factor against its reference twin; also internal consistency (cardinality vs shape vs state names).
 
     x/0 = inf and 0/0 = 0 are defined for a division of finite factors (strict_nonfinite); what later arithmetic makes of an
@@ -145,7 +145,8 @@ def check_member(ctx, names, card, phi, ref, what, slot, strict_nonfinite=False)
     if not strict_nonfinite and a_cmp.shape == r_cmp.shape and not np.all(np.isfinite(r_cmp)):
         mask = np.isfinite(r_cmp)
         a_cmp, r_cmp = a_cmp[mask], r_cmp[mask]
-    if not close(a_cmp, r_cmp, atol=1e-9, rtol=1e-9):
+    # float32 run configuration: about 7 significant digits per operation, histories of up to 40 operations
+    if not (close(a_cmp, r_cmp, atol=1e-4 * max(1.0, float(np.abs(r_cmp).max()) if r_cmp.size else 1.0), rtol=1e-3) if single else close(a_cmp, r_cmp, atol=1e-9, rtol=1e-9)):
         ctx.fail("values", f"{PROP}:values:{what}", {"slot": slot, "scope": ref.scope, "maxdiff": maxdiff(arr, ref.arr), "got": np.asarray(arr).round(6).reshape(-1).tolist()[:8],
                                                      "want": np.asarray(ref.arr).round(6).reshape(-1).tolist()[:8]})
         return False
@@ -162,8 +163,11 @@ def execute(case, ctx):
     seams.set_backend(case["backend"])
     ctx.fault("relabel")
     ctx.sig_order("labels", [names.lab2idx[x] for x in set(names.labels)])
-    if case["backend"] == "torch":
+    if case["backend"] != "numpy":
         ctx.fault("backend_config")
+    single = case["backend"].endswith("float32")
+    if single:
+        ctx.probe("dtype_float32")
     pool = [make(u, names, f) for f in case["init"]]
     refs = [Ref.from_spec(u, f) for f in case["init"]]
     L = names.L
@@ -173,7 +177,7 @@ def execute(case, ctx):
         for s in range(len(pool)):
             if s in skip:
                 continue
-            ok = check_member(ctx, names, card, pool[s], refs[s], what, s) and ok
+            ok = check_member(ctx, names, card, pool[s], refs[s], what, s, single=single) and ok
         return ok
 
     if not verify_all("init"):
@@ -350,7 +354,7 @@ def execute(case, ctx):
                 return
             # the out-of-place result must be right *before* it joins the pool, and operands untouched
             strict = k in ("divide", "factor_divide") and np.all(np.isfinite(ra.arr)) and np.all(np.isfinite(rb.arr))
-            if not check_member(ctx, names, card, res, rres, k, "result", strict_nonfinite=strict):
+            if not check_member(ctx, names, card, res, rres, k, "result", strict_nonfinite=strict, single=single):
                 verify_all(k + ":operands")
                 return
             pool[dst] = res
